@@ -83,13 +83,15 @@ def processClosed (deadline : Option Int) (it : Iter) : Outcome :=
   let t0 : Int := it.now + it.dur
   let low := [(Stage.indexing, it.now), (Stage.watching, it.now), (Stage.spawning, t0)]
   let pre : Bool := deadline.isNone || it.gone
+  let waiting : Bool := it.required && !pre && (match deadline with | some d => decide (d ≠ 0) | none => false)
+  let past : Bool := waiting && (match deadline with | some d => decide (d ≤ t0) | none => false)
   let slept : Option Slept :=
     match deadline with
     | some d =>
-      if it.required && !pre && it.patchMid && decide (d ≠ 0)
+      if waiting && !past && it.patchMid
       then some (sleepUntil d t0 it.pressure it.wake it.lag) else none
     | none => none
-  let ach1 : Bool := match slept with | some s => s.timedOut | none => pre
+  let ach1 : Bool := past || (match slept with | some s => s.timedOut | none => pre)
   let achieved := ach1 && it.patchInit
   let tB : Int := match slept with | some s => s.tEnd | none => t0
   let ran := it.required && achieved
